@@ -236,7 +236,11 @@ class Abs:
         e = Entry(n, pgno, sub, func, x26, x28, tag)
         n.entries.insert(0, e)
         self.ph[h] = e
-        n.hi[pgno] = max(n.hi.get(pgno, 0), sub)
+        # cache_network_add_page (5e41e82): the recorded range starts over when the new page is the only
+        # allocated version of its page number (replaced versions still held by a client count)
+        others = sum(1 for x in n.entries if x.pgno == pgno and x is not e)
+        others += len({id(x) for x in self.ph if x is not None and not x.live and x.refs > 0 and x.net is n and x.pgno == pgno})
+        n.hi[pgno] = sub if others == 0 else max(n.hi.get(pgno, 0), sub)
         return self.check_page(res, h, e)
 
     def lookup(self, n, pgno, subno, mask, res):
@@ -298,7 +302,7 @@ class Abs:
             return self.expect(res, "rej pgno")
         if not res.startswith("ok "):
             return "hisubno answered '%s'" % res
-        if n.hi_known:
+        if n.hi_known and not self.pressure:
             return self.expect(res, "ok %d" % n.hi.get(pgno, 0))
         return None
 
@@ -630,22 +634,23 @@ def case_malformed(rng, n):
 class C10(verif.Spec):
     prop = "C10"
     comp = "cache"
-    lean_modules = ["ZvbiModel.Props.C10"]
+    lean_modules = ["ZvbiModel.Props.C10", "ZvbiModel.Props.C10Ttx"]
     harness = "cache_harness"
     harness_link_lib = True
     harness_extra = ["-DDLIST_CONSISTENCY=1"]
     timeout_per_case = 5.0
     partial_note = ("full for the bookkeeping invariant (all operations, all histories, eviction paths included), look-up / store "
-                    "refinement, channel switch and teardown; counters-exact holds modulo 256 for uint8_t n_subpages (F17, proved "
-                    "witness); held_page_intact proved for all operations except those that themselves take/release page "
-                    "references (get/ref/unref/is-cached/walk); hi_subno_agrees and walk order/termination (C17) not proved")
+                    "refinement, held_page_intact (all operations and histories), channel switch, teardown, and the refinement of "
+                    "the Teletext decoder model's page list to the same abstract map (Props/C10Ttx); counters-exact holds modulo "
+                    "65536 for uint16_t n_subpages and the page count per page number is unbounded (F17, proved witnesses); "
+                    "hi_subno_agrees and walk order/termination (C17) not proved")
     assumptions = ["clients pass only pointers they hold a reference on (the harness / driver enforce it: `rej handle`)",
                    "0x100 <= pgno <= 0x8FF for put / hi_subno / foreach (asserted by cache_network_page_stat; callers guarantee it)",
                    "subpage numbers and designation sets fit 16 bits; unsigned int counters do not overflow (2^32 events)",
                    "malloc succeeds (the out-of-memory path of put is not modelled)",
                    "store refinement (refines_map_put) assumes memory is not short - true in libzvbi 0.2 while the cache holds "
                    "<= 0x800*80 pages (limit_unreachable_0_2); F17 shows the page count itself is not bounded"]
-    open_statements = ["held_page_intact_full", "hi_subno_agrees_full"]
+    open_statements = ["hi_subno_agrees_full"]
     trusted_base = ["lean/ZvbiModel/Cache/Model.lean: hand-written reading of src/cache.c (representation argued in NOTES/C10.md); "
                     "tied to the code by the correspondence run: every answer carries a digest of the complete cache state",
                     "translate/gen_cache.py (struct sizes, HASH_SIZE, death_row extent, limits; cross-checked by the `sizes` op)",
@@ -712,19 +717,21 @@ class C10(verif.Spec):
         if len(out) != len(case):
             return "output count %d != ops %d" % (len(out), len(case))
         a = Abs()
+        dup = None
         for i, (op, o) in enumerate(zip(case, out)):
-            if " a=" in o and not o.endswith(" a=ok"):
+            if o.endswith(" a=dup-key"):
+                # two retrievable versions under one key (finding F17): everything else is still judged
+                dup = dup or "audit: dup-key (op %d '%s')" % (i, op.split()[0])
+            elif " a=" in o and not o.endswith(" a=ok"):
                 return "audit: %s (op %d '%s')" % (o.rsplit(" a=", 1)[1], i, op.split()[0])
             if "corrupt" in o:
                 return "corrupt page content (op %d '%s')" % (i, op.split()[0])
             w = a.feed(op, o)
             if w:
                 return "map: op %d '%s': %s" % (i, op, w)
-        return None
+        return dup
 
     def signature(self, case, what):
-        if what.startswith("audit: nsub"):
-            return "audit:nsub"
         if what.startswith("audit:"):
             return "audit:" + what.split()[1]
         if what.startswith("map:"):
